@@ -464,14 +464,20 @@ template <class T> static void deser_observe(IOVector& iov, const Inst& in, Out&
     o.ok = r != nullptr;
     if (!r || !observe) return;
     Observe ob; ob.arrm_counts = in.arrm_counts;
-    Where w = locate(r, sizeof(T));
-    o.body = vt::Arr().i(w.code).i(w.pos).str();
+    g_nosearch = true; Where w = locate(r, sizeof(T)); g_nosearch = false;     // (a copied body has its pointers rewritten by now)
+    o.body = vt::Arr().i(w.code).i(w.code == 1 ? (w.extra < 0 ? -1 : -2) : w.pos).str();
     read_all(r, sizeof(T));
     r->process_fields(ob);
     o.res = ob.res; o.fx = ob.fx;
     if (!ob.map) return;
-    g_stage = "lookup"; g_fwi = 0;
     Map& m = *ob.map; auto bb = (const char*)m.base_buffer.addr(); size_t B = m.base_buffer.size();
+    {   // the slices as the receiver has them (the index was delivered and has been read above); part of the description from here on
+        vt::Arr sl; size_t n = std::min<size_t>(m.index.size(), 16);
+        for (size_t i = 0; i < n; i++) { auto& e = m.index[i]; sl.raw(vt::Arr().i(caps((uint64_t)e.first.offset)).i(capu(e.first.length)).i(caps((uint64_t)e.second.offset)).i(capu(e.second.length)).str()); }
+        std::string add = ",\"SLr\":" + sl.str();
+        size_t l = strlen(g_desc); if (l + add.size() + 1 < DESC_MAX) memcpy(g_desc + l, add.c_str(), add.size() + 1);
+    }
+    g_stage = "lookup"; g_fwi = 0;
     vt::Arr L, F;
     size_t cnt = 0;
     for (auto it = m.begin(); it != m.end() && cnt < 64; ++it, ++cnt) {      // every entry, in index order
@@ -504,7 +510,16 @@ static void run_case(const Shape& sh, const Inst& in, const char* mode, const st
     bool rt = !strcmp(mode, "rt");
     // ---- the bytes supplied ----
     std::string bytes = in.flat;
-    for (auto& w : mu.w) { auto& wd = in.words[w.first]; if (wd.flatoff != (size_t)-1) wr64(bytes, wd.flatoff, w.second); }
+    for (auto& w : mu.w) {
+        auto& wd = in.words[w.first]; if (wd.flatoff == (size_t)-1) continue;
+        wr64(bytes, wd.flatoff, w.second);
+        // an iovec_array carries two words: summed_size (the one that matters) and the byte length of the iovec[];
+        // keep "no bytes <=> no elements" so that the two agree about emptiness
+        if (!strcmp(wd.kind, "iov") || !strcmp(wd.kind, "aiov")) {
+            size_t lenoff = wd.flatptr + 8;
+            if (w.second == 0) wr64(bytes, lenoff, 0); else if (rd64(bytes, lenoff) == 0) wr64(bytes, lenoff, sizeof(iovec));
+        }
+    }
     for (auto& s : mu.sl) wr64(bytes, in.slices[s.first.first].flatoff[s.first.second], s.second);
     if (!rt && strcmp(mode, "alter"))      // a hostile sender's pointers are garbage, and it can compute a checksum
         for (auto& wd : in.words) if (wd.flatptr != (size_t)-1) wr64(bytes, wd.flatptr, 0x00dead0000000000ull + (&wd - &in.words[0]) * 0x100);
@@ -594,7 +609,7 @@ static std::vector<std::vector<size_t>> partitions(const Inst& in, int level) {
 
 static std::vector<uint64_t> hostile_values(const Word& w, size_t V, bool lite) {
     uint64_t n = w.honest, rem = V - std::min(V, w.start);
-    std::vector<uint64_t> c = lite ? std::vector<uint64_t>{0, 1, n + 1, rem, rem + 1, (1ull << 32) + n, ~0ull}
+    std::vector<uint64_t> c = lite ? (g_thorough ? std::vector<uint64_t>{0, 1, n + 1, rem, rem + 1, (1ull << 32) + n, ~0ull} : std::vector<uint64_t>{0, n + 1, rem + 1, ~0ull})
                                    : std::vector<uint64_t>{0, 1, n - 1, n + 1, rem - 1, rem, rem + 1, 1ull << 31, (1ull << 32) + n, 1ull << 63, ~0ull};
     std::vector<uint64_t> out;
     for (auto v : c) {
@@ -617,11 +632,12 @@ static void sweep_hostile(const Shape& sh, const Inst& in) {
     size_t nw = in.words.size();
     std::vector<std::vector<uint64_t>> hv, hl;
     for (auto& w : in.words) { hv.push_back(hostile_values(w, in.V, false)); hl.push_back(hostile_values(w, in.V, true)); }
+    if (!g_thorough) parts.resize(std::min<size_t>(parts.size(), 4));
     for (auto& p : parts) {
         size_t pi = &p - &parts[0];
         // single deviations (all values), pairs (lite values; thorough: all values), thorough: triples of lite values
         for (size_t i = 0; i < nw; i++) for (auto v : hv[i]) { Mut m; m.w.push_back({(int)i, v}); run_case(sh, in, "hostile", p, 0, m); }
-        if (g_thorough || pi < 2)
+        if (g_thorough || pi < 1)
         for (size_t i = 0; i < nw; i++) for (size_t j = i + 1; j < nw; j++)
             for (auto v : (g_thorough ? hv[i] : hl[i])) for (auto u : (g_thorough ? hv[j] : hl[j])) {
                 Mut m; m.w.push_back({(int)i, v}); m.w.push_back({(int)j, u}); run_case(sh, in, "hostile", p, 0, m);
@@ -668,7 +684,8 @@ static void sweep_hostile(const Shape& sh, const Inst& in) {
 }
 
 static uint64_t g_seed = 1; static int g_random = 0;
-static void run_shape_exhaustive(const Shape& sh) {
+// phase 0: round trips of every instance; phase 1: hostile sweeps (each in a child of its own: they are the ones that crash)
+static void run_shape_exhaustive(const Shape& sh, int phase) {
     Chooser dry; dry.dry = true; sh.build(sh.name, dry);
     std::vector<int> d(dry.doms.size(), 0);
     size_t ninst = 0;
@@ -679,14 +696,16 @@ static void run_shape_exhaustive(const Shape& sh) {
         bool last = true; for (size_t i = 0; i < d.size(); i++) last &= (d[i] == dry.doms[i] - 1);
         // hostile sweeps on the fullest instance (every field non-empty) and, thorough, on the emptiest one too
         bool hostile = last || (g_thorough && ninst == 0);
-        sweep_rt(sh, in); if (hostile) sweep_hostile(sh, in);
+        if (!phase) sweep_rt(sh, in);
+        else if (hostile) guarded([&] { sweep_hostile(sh, in); });
         ninst++;
         size_t i = 0; for (; i < d.size(); i++) { if (++d[i] < dry.doms[i]) break; d[i] = 0; }
         if (i == d.size()) break;
     }
 }
 static void run_shape(const Shape& sh) {
-    guarded([&] { run_shape_exhaustive(sh); });
+    guarded([&] { run_shape_exhaustive(sh, 0); });
+    run_shape_exhaustive(sh, 1);
     // seeded random larger instances of this shape
     guarded([&] {
       for (int k = 0; k < g_random; k++) {
